@@ -29,14 +29,23 @@ def sections(unit):
     return {k: "".join(sorted(v)) for k, v in out.items()}
 
 owners, users = collections.defaultdict(list), collections.defaultdict(list)
+definitional_bad = False
 for f in sorted(glob.glob(os.path.join(V, "units", "U*", "unit.json"))):
     u = json.load(open(f)); un = f.split("/")[-2]
     for it in u["items"] + sum(u.get("items_if", {}).values(), []):
         if it["kind"] in ("fn", "impl_fn", "impl"):
             key = (it.get("impl_self", ""), it.get("ident", it.get("name")))
             name = it.get("marker_name") or it.get("rename_fn") or it.get("ident")
+            if it.get("contract_only") and it.get("definitional"):
+                # a stub whose only clause is `<fn>_rel(args.., r)` with `<fn>_rel` an UNINTERPRETED relation: it defines the
+                # relation as the function's input-output behaviour and assumes nothing about it - no owner needed; checked here
+                secs = sections(un).get(name, "")
+                cl = [c for c in secs.strip().split("\n") if c and c != "ensures"]
+                if len(cl) != 1 or not re.match(r"^%s_rel\(.*\),$" % re.escape(it["ident"]), cl[0]):
+                    print("NOT DEFINITIONAL", un, name, cl); definitional_bad = True
+                continue
             (users if it.get("contract_only") else owners)[key].append((un, name))
-bad = 0
+bad = 1 if definitional_bad else 0
 for key, us in users.items():
     ow = owners.get(key)
     if not ow:
